@@ -273,9 +273,12 @@ def run_graphs(griffe, part, tier):
 # -- histories ---------------------------------------------------------------------------------------------------------------
 
 H_FILES = {
-    "P/__init__.py": "from Q import qx\nfrom Q import *\nfrom R import rx\ndef px(): ...\nfrom P.sub import *\n__all__ = ['px', 'qx', 'rx', 'sx']\n",
+    # fx: a real function of P, displaced (once Q is loaded) by the dangling alias that `from Q import *` brings; P.x and P.y follow it, near and far
+    "P/__init__.py": "def fx(): ...\nfrom Q import qx\nfrom Q import *\nfrom R import rx\ndef px(): ...\nfrom P.sub import *\n__all__ = ['px', 'qx', 'rx', 'sx', 'fx']\n",
+    "P/x.py": "from P import fx\n",
+    "P/y.py": "from P.x import fx\n",
     "P/sub.py": "from Q.inner import *\nfrom P import px as sx\n",
-    "Q/__init__.py": "from P import px\nfrom P import *\nfrom R.deep import *\ndef qx(): ...\n",
+    "Q/__init__.py": "from P import px\nfrom P import *\nfrom R.deep import *\ndef qx(): ...\nfrom R import fx\n",
     "Q/inner.py": "from P.sub import sx\nfrom Q import qx as ix\nfrom Q.inner import *\n",
 }
 H_OPS = [("load", "P"), ("load", "Q"), ("load", "P.sub"), ("load", "R")] + [("resolve", i, e) for i in (False, True) for e in (None, False, True)]
